@@ -159,7 +159,9 @@ def run(res, replay=None):
                 for _ in range(rng.randrange(1, 4)):
                     tn = rng.choice(use); sel.append((tn, rng.randrange(len(tabs[tn][0]))))
                 selsql = ", ".join("%s.%s" % (tn, tabs[tn][1][c]) for tn, c in sel)
-                fsql = ["%s.%s %s %s" % (tn, tabs[tn][1][c], op[1], v.sql()) for tn, c, op, v in filt]
+                # a filter is written column-first or (30%) constant-first with the mirrored operator
+                fsql = [("%s.%s %s %s" % (tn, tabs[tn][1][c], op[1], v.sql())) if rng.random() < 0.7 else
+                        ("%s %s %s.%s" % (v.sql(), dict(OPS)[MIRROR[op[0]]], tn, tabs[tn][1][c])) for tn, c, op, v in filt]
                 if len(use) == 2 and rng.random() < 0.5:
                     sql = "SELECT %s FROM %s JOIN %s ON %s" % (selsql, use[0], use[1], conds[0])
                     if conds[1:] + fsql:
@@ -238,6 +240,9 @@ def run(res, replay=None):
     finally:
         db.destroy()
     import pressure
+    for d, w in pressure.tmp_page_fill_join(res):
+        if len(res.oracle_failures) < 5:
+            res.oracle_failures.append((d, w))
     for d, w in pressure.tiny_pool_join(res, rng, 12):
         if len(res.oracle_failures) < 5:
             res.oracle_failures.append((d, w))
